@@ -180,8 +180,9 @@ def run_async(ctx: Ctx, cfg: dict) -> dict:
         try:
             await asyncio.gather(*tasks)
         finally:
-            for t in tasks:
-                t.cancel()
+            if not loop.is_closed():  # (an abandoned execution is finalised after the loop is gone)
+                for t in tasks:
+                    t.cancel()
         out["phase"] = "close"
         await tls.aclose()
         out["phase"] = "done"
@@ -205,6 +206,8 @@ def run_async(ctx: Ctx, cfg: dict) -> dict:
     out["busy_recv"] = leaf.busy_recv if leaf else 0
     out["peer_events"] = tuple(e for e in relay.peer.events if e[0] != "data")
     out["deliveries"] = len(relay.deliveries)
+    out["holds"] = relay.holds
+    out["mid_record"] = relay.mid_record_deliveries
     out["selects"] = world.selects
     out["unhandled"] = vloop.collect_unhandled(loop) if status == "ok" else []
     tlsrig.gc_tick()
@@ -302,6 +305,8 @@ def run_blocking(ctx: Ctx, cfg: dict) -> dict:
     out["busy_recv"] = 0
     out["peer_events"] = tuple(e for e in relay.peer.events if e[0] != "data")
     out["deliveries"] = len(relay.deliveries)
+    out["holds"] = relay.holds
+    out["mid_record"] = relay.mid_record_deliveries
     out["selects"] = world.selects
     out["short_sends"] = link.short_sends
     out["unhandled"] = []
@@ -411,23 +416,21 @@ def jobs(tier: str) -> list[dict]:
                             order=("rw", "wr")[(i // 4) % 2], send_checkpoints=(0, 1)[(i // 3) % 2])
                 out.append({"kind": "explore", "tier": tier, "bound": deep, "cfgs": [cfg]})
     # (B) mid: 6x6 script pairs, every version/role, variants rotated
-    i = 0
     group: list[dict] = []
-    for ls in MID_SCRIPTS:
-        for ps in MID_SCRIPTS:
-            for v, r in vr:
-                i += 1
-                recv, send = VARIANTS[i % 4]
-                group.append(_base("async", v, r, recv, send, ls, ps, bufsize=(65536, 1000)[(i // 4) % 2], gate=("duplex", "lib-first")[(i // 8) % 2],
-                                   order=("rw", "wr")[(i // 16) % 2]))
+    for p, (ls, ps) in enumerate((a, b) for a in MID_SCRIPTS for b in MID_SCRIPTS):
+        for ci, (v, r) in enumerate(vr):
+            if True:
+                recv, send = VARIANTS[(p + ci) % 4]  # every version/role meets every variant (rotation over the pairs)
+                group.append(_base("async", v, r, recv, send, ls, ps, bufsize=(65536, 1000)[(p // 4 + ci) % 2],
+                                   gate=("duplex", "lib-first")[(p // 2 + ci // 2) % 2], order=("rw", "wr")[(p // 8 + ci) % 2]))
                 if len(group) == (4 if tier == "quick" else 1):
                     out.append({"kind": "explore", "tier": tier, "bound": mid, "cfgs": group})
                     group = []
     if group:
         out.append({"kind": "explore", "tier": tier, "bound": mid, "cfgs": group})
-    # (C) low: the full 155 x 155 script-pair matrix, each pair in ONE configuration chosen by rotation (thorough: bound 0
-    # over the whole matrix in all four version/role configurations + bound 1 over a 230-pair diagonal band)
-    scripts = all_scripts()
+    # (C) low: the 155 x 155 script-pair matrix under default delivery. quick: one pair in 8 (shifted diagonals), each in ONE
+    # configuration chosen by rotation; thorough: every pair in all four version/role configurations, plus deviation
+    # bound 1 over a band of 6 diagonals (930 pairs, those of <= 100 kB)
     nparts = 32 if tier == "quick" else 96
     for part in range(nparts):
         out.append({"kind": "matrix", "tier": tier, "part": part, "parts": nparts, "bound": 0})
@@ -439,15 +442,13 @@ def jobs(tier: str) -> list[dict]:
         for n in UNIFORM:
             out.append({"kind": "uniform", "tier": tier, "pair": [list(pair[0]), list(pair[1])], "n": n})
     # (F) second configuration: AsyncTLSStreamTransport over the REAL asyncio socket adapter on a FakeSocket
-    i = 0
     group = []
-    for pair in DEEP_PAIRS:
-        for v, r in vr:
-            for cap in (None, 1024):
-                i += 1
-                recv, send = VARIANTS[i % 4]
-                group.append(_base("asock", v, r, recv, send, pair[0], pair[1], tx_cap=cap, bufsize=(65536, 1000)[(i // 4) % 2],
-                                   gate=("duplex", "lib-first")[(i // 8) % 2], order=("rw", "wr")[(i // 2) % 2]))
+    for p, pair in enumerate(DEEP_PAIRS):
+        for ci, (v, r) in enumerate(vr):
+            for ki, cap in enumerate((None, 1024)):
+                recv, send = VARIANTS[(p + ci + 2 * ki) % 4]
+                group.append(_base("asock", v, r, recv, send, pair[0], pair[1], tx_cap=cap, bufsize=(65536, 1000)[(p // 4 + ci + ki) % 2],
+                                   gate=("duplex", "lib-first")[(p // 2 + ci // 2) % 2], order=("rw", "wr")[(p + ki) % 2]))
                 if len(group) == (4 if tier == "quick" else 1):
                     out.append({"kind": "explore", "tier": tier, "bound": mid, "cfgs": group})
                     group = []
@@ -519,16 +520,14 @@ def job_cfgs(job: dict) -> list[tuple[dict, int]]:
         bscripts = [s for s in scripts if all(x in BLOCKING_SIZES for x in s) and len(s) <= 2]
         out = []
         idx = 0
-        for ls in bscripts:
-            for ps in bscripts:
-                for v in tlsrig.VERSIONS:
-                    for r in tlsrig.ROLES:
-                        idx += 1
-                        if idx % job["parts"] != job["part"]:
-                            continue
-                        recv, send = VARIANTS[idx % 4]
-                        out.append((_base("blocking", v, r, recv, send, ls, ps, prog=("send-first", "alternate")[(idx // 4) % 2],
-                                          bufsize=(65536, 1000)[(idx // 8) % 2]), job["bound"]))
+        for p, (ls, ps) in enumerate((a, b) for a in bscripts for b in bscripts):
+            for ci, (v, r) in enumerate((v, r) for v in tlsrig.VERSIONS for r in tlsrig.ROLES):
+                idx += 1
+                if idx % job["parts"] != job["part"]:
+                    continue
+                recv, send = VARIANTS[(p + ci) % 4]  # every version/role meets every variant (rotation over the pairs)
+                out.append((_base("blocking", v, r, recv, send, ls, ps, prog=("send-first", "alternate")[(p // 4 + ci) % 2],
+                                  bufsize=(65536, 1000)[(p // 2 + ci // 2) % 2]), job["bound"]))
         return out
     raise ValueError(kind)
 
@@ -550,6 +549,9 @@ def run_job(job: dict) -> JobResult:
                 res.internal.append(str(exc))
                 continue
         explore_cfg(cfg, bound, res)
+    # complete within the stated deviation bound / script sets only (DESIGN.md section 5): never claimed exhaustive over
+    # "all fragmentations x all interleavings"
+    res.exhaustive = False
     return res
 
 
@@ -561,10 +563,9 @@ def explore_cfg(cfg: dict, bound: int, res: JobResult) -> None:
         res.evaluations += 1
         bad = oracle(obs, cfg)
         if bad is None:
-            name = "ok"
-            if obs.get("reader_parked_at_writer_done"):
-                name = "ok/writer-finished-while-reader-parked"
-            res.outcome(f"{cfg['kind']}-{name}")
+            flags = [f for f, on in (("writer-finished-while-reader-parked", obs.get("reader_parked_at_writer_done")),
+                                     ("delivery-ended-inside-a-record", obs["mid_record"]), ("bytes-held-back", obs["holds"])) if on]
+            res.outcome(f"{cfg['kind']}-ok[{','.join(flags)}]")
         else:
             res.outcome("VIOLATION:" + bad[0].split("/")[-1])
             if bad[0] not in found:
